@@ -80,7 +80,7 @@ func metaExpect(m *metaModel, groups [][]modelFilter, seen map[string]bool) (alt
 		ids, ok := m.evalGroups(groups, m.schema.types)
 		return []map[uint32]bool{ids}, ok
 	}
-	for _, asType := range []fieldType{ftInt, ftString} {
+	for _, asType := range []fieldType{ftInt, ftString, ftAbsent} {
 		types := map[string]fieldType{}
 		for k, v := range m.schema.types {
 			if seen[k] {
